@@ -144,6 +144,20 @@ func (c *Chan) NextEntry(ctx context.Context) (IteratorEntry, bool) {
 	}
 }
 
+// IterNextEntry advances an iterator and returns the entry of the new position.
+// For a channel the value and its entry are taken in one call (NextEntry), so
+// that several goroutines may consume the same channel; other iterators are
+// advanced with Next followed by Entry.
+func IterNextEntry(ctx context.Context, iter Iterator) (IteratorEntry, bool) {
+	if ch, ok := iter.(*Chan); ok {
+		return ch.NextEntry(ctx)
+	}
+	if _, ok := iter.Next(ctx); !ok {
+		return nil, false
+	}
+	return iter.Entry()
+}
+
 func (c *Chan) Entry() (IteratorEntry, bool) {
 	if c.lastReceived != nil {
 		return &Entry{
